@@ -68,6 +68,10 @@ def deep_cases(tier):
     out = []
     for d in depths:
         for pattern in ("child", "item-child", "child-item", "tuple", "list-const"):
+            # a chain in which every level needs a flush of its own costs depth^2 scheduler steps (each pass walks
+            # the chain from the root): those patterns stop at 5 000 levels, the flush-free ones go to 100 000
+            if pattern in ("item-child", "child-item") and d > 5000:
+                continue
             out.append({"depth": d, "pattern": pattern})
     return out
 
